@@ -464,7 +464,8 @@ func LoadGeneralBoardDetails(user *ptttype.UserecRaw, uid ptttype.UID, startIdx 
 	// get details
 	details = make([]*ptttype.BoardDetailRaw, 0, nBoardsWithNext)
 	if isAsc {
-		for idx, idxInStore := 0, startIdxInStore; idxInStore < nBoardsInCache_siis && idx < nBoardsWithNext; idx, idxInStore = idx+1, idxInStore+1 {
+		// skipped entries do not count against the page (add 1 more board for nextDetail)
+		for idxInStore := startIdxInStore; idxInStore < nBoardsInCache_siis && len(details) < nBoardsWithNext; idxInStore++ {
 			bidInCache := cache.Shm.Shm.BSorted[bsortBy][idxInStore]
 			bid := bidInCache.ToBid()
 			if !bid.IsValid() {
@@ -472,6 +473,9 @@ func LoadGeneralBoardDetails(user *ptttype.UserecRaw, uid ptttype.UID, startIdx 
 			}
 
 			eachBoard := &cache.Shm.Shm.BCache[bidInCache]
+			if eachBoard.Brdname[0] == '\x00' { // vacated slot: not a board, and it has no cursor.
+				continue
+			}
 			lastPostTime, _ := cache.GetLastPosttime(bid)
 			total, _ := cache.GetBTotalWithRetry(bid)
 			eachBoardDetail := &ptttype.BoardDetailRaw{
@@ -486,7 +490,7 @@ func LoadGeneralBoardDetails(user *ptttype.UserecRaw, uid ptttype.UID, startIdx 
 			details = append(details, eachBoardDetail)
 		}
 	} else {
-		for idx, idxInStore := 0, startIdxInStore; idxInStore >= 0 && idx < nBoardsWithNext; idx, idxInStore = idx+1, idxInStore-1 {
+		for idxInStore := startIdxInStore; idxInStore >= 0 && len(details) < nBoardsWithNext; idxInStore-- {
 			bidInCache := cache.Shm.Shm.BSorted[bsortBy][idxInStore]
 			bid := bidInCache.ToBid()
 			if !bid.IsValid() {
@@ -494,6 +498,9 @@ func LoadGeneralBoardDetails(user *ptttype.UserecRaw, uid ptttype.UID, startIdx 
 			}
 
 			eachBoard := &cache.Shm.Shm.BCache[bidInCache]
+			if eachBoard.Brdname[0] == '\x00' { // vacated slot: not a board, and it has no cursor.
+				continue
+			}
 			lastPostTime, _ := cache.GetLastPosttime(bid)
 			total, _ := cache.GetBTotalWithRetry(bid)
 			eachBoardDetail := &ptttype.BoardDetailRaw{
